@@ -89,6 +89,10 @@ PROPS = {
     ),
     "C08": dict(
         modules=["c08"],
+        # the wrapper's cut logic relies on the core reporting its remaining blocks exactly (core contract),
+        # and the core's own one-shot byte API (apply_keystream_partial) must agree with the byte-level wrapper
+        also=["c04::ctr32be_b16_w2_n3", "c04::ctr64be_b24_w2_n3", "c04::ctr128le_b16_w2_n3", "c06::belt_core_w2_n3",
+              "c03::partial_ofb_b4_w2_l11", "c03::partial_ofb_b2_w1_l1", "c03::partial_ctr32be_b4_w2_l14", "c03::partial_belt_w2_l35"],
         bounds=dict(cipher=CIPHER, method="inductive step: arbitrary core state (symbolic IV, symbolic block position) -> piece 1 of length a (cursor anywhere in [0,b], empty piece included) -> piece 2 of SYMBOLIC length n: concatenation == keystream spec XOR, nothing beyond touched",
                     stream_types="Ofb (a and n symbolic), Ctr32BE (a=3, n symbolic) + concrete three-piece geometries for all six CTR flavours and BelT-CTR (quick); more (a, n) in thorough",
                     buffered_cfb="every reachable state established through the API (fresh object over a symbolic IV + a bytes, a in {0..b}, get_state -> from_state), then ONE call of SYMBOLIC length <= 2b+1 == CFB recurrence; no assumption on the representation of the exported pair; fresh object cut at a symbolic point == CFB recurrence; long calls at concrete geometry",
@@ -98,6 +102,10 @@ PROPS = {
     ),
     "C09": dict(
         modules=["c09"],
+        # exported state after feeding through the backend's *_inplace entry points (custom closure): the
+        # recurrence harnesses compare iv_state() with the recurrence's chaining value
+        also=["c02::ige_enc_b2_w2_n4_closure", "c02::ige_dec_b2_w3_n5_closure", "c02::cbc_dec_b2_w2_n4_closure", "c02::pcbc_enc_b2_w2_n4_closure",
+              "c02::pcbc_dec_b2_w2_n4_closure", "c02::cbc_enc_b2_w2_n4_closure"],
         bounds=dict(cipher=CIPHER, method="run k blocks (k SYMBOLIC in [0,n]), export iv_state, import into a fresh instance over the same cipher, run the rest: equals the uninterrupted run; exported value == public chaining value computed from (IV, plaintext, ciphertext) only",
                     modes="CBC, PCBC, IGE, CFB, CFB-8, OFB (both directions), n=3..6, b in {2} (thorough 3,4)",
                     ctr="CTR flavours and BelT-CTR at a SYMBOLIC block position: iv_state == next counter block / D(s); fresh instance continues identically",
@@ -135,7 +143,11 @@ PROPS = {
     "C13": dict(
         modules=["c13"],
         also=["c08::buf_enc_step_b2_a1_n5", "c08::buf_dec_step_b2_a1_n5", "c03::cfb_enc_b2_w1_symlen7", "c03::cfb8_enc_b2_symlen5", "c01::rt_cts_cbc_cs3_b2_w2_l7", "c01::rt_cts_ecb_cs1_b2_w2_l7",
-              "c05::cbc_cs1_b4_w1_l7", "c05::cbc_cs2_b4_w1_l4", "c05::cbc_cs3_b4_w1_l7", "c05::ecb_cs3_b4_w1_l7"],
+              "c05::cbc_cs1_b4_w1_l7", "c05::cbc_cs2_b4_w1_l4", "c05::cbc_cs3_b4_w1_l7", "c05::ecb_cs3_b4_w1_l7",
+              # accepted inputs must not be refused: empty whole-block message through the padded API; remaining_blocks exact
+              # (an under-reported remainder makes try_apply_keystream refuse / apply_keystream panic on a request that fits)
+              "c01::rt_nopad_cbc_b2_w2_l0", "c01::rt_nopad_pcbc_b2_w2_l0", "c01::rt_nopad_ige_b2_w2_l0",
+              "c04::ctr128le_b16_w2_n3", "c04::ctr128be_b32_w2_n3", "c04::ctr64be_b24_w2_n3", "c04::ctr32be_b16_w2_n3", "c06::belt_core_w2_n3"],
         bounds=dict(cipher=CIPHER, rejections="CTS L<b (SYMBOLIC L) in place and b2b, both directions; unequal lengths in *_blocks_b2b / one-shot _b2b / apply_keystream_b2b / cts _b2b (SYMBOLIC pairs); decrypt_padded[_b2b] with L mod b != 0 or short output; new_from_slices / new_from_slice with SYMBOLIC key and IV lengths for 27 public types: Err exactly when the contract is violated; all caller buffers bit-identical; cipher not invoked; chaining state / position unchanged",
                     no_panic="every harness of every property runs with Kani's panic, arithmetic-overflow, bounds and pointer checks; plus total drivers: stream ciphers at ANY block position with any request length, CTS for every length 0..=M incl. 1-byte blocks"),
         outside=COMMON_OUTSIDE + ["the convenience wrappers apply_keystream / seek / current_pos are DEFINED as try_*().unwrap() and documented to panic where the try_ form returns Err; 'never panics' is checked on the try_ forms",
@@ -154,7 +166,9 @@ PROPS = {
         # that the decryptor IS the recurrence, so those recurrence harnesses are part of this check
         also=["c03::cfb8_dec_b2_l4_b2b", "c03::cfb8_dec_b3_l5_oneshot", "c02::pcbc_dec_b2_w2_n3_multi", "c02::ige_dec_b2_w2_n3_multi",
               "c02::cbc_dec_b2_w2_n3_multi", "c03::cfb_dec_b2_w2_n3_multi",
-              "c02::pcbc_dec_b2_w2_n4_closure", "c02::cbc_dec_b2_w2_n4_closure", "c02::ige_dec_b2_w3_n5_closure", "c03::cfb_dec_b2_w2_n4_closure"],
+              "c02::pcbc_dec_b2_w2_n4_closure", "c02::cbc_dec_b2_w2_n4_closure", "c02::ige_dec_b2_w3_n5_closure", "c03::cfb_dec_b2_w2_n4_closure",
+              # larger geometries of the same "decryptor == recurrence" statement (32-byte blocks, long buffered calls, wide backends)
+              "c02::cbc_dec_b32_w2_n3_multi", "c08::buf_dec_long_b1_p1_n19", "c08::buf_dec_long_b2_p1_n12", "c02::cbc_dec_b1_w16_n12_multi", "c03::cfb_dec_b1_w16_n12_multi"],
         bounds=dict(cipher=CIPHER, method="two decryptions over the same permutation of c and c xor delta@j, delta != 0 symbolic; j enumerated (CBC/CFB/PCBC/IGE, n=4..5 blocks) or SYMBOLIC (CFB-8 byte index)",
                     claims="CBC: blocks <j equal, block j differs, block j+1 differs by exactly delta, later equal.  CFB: block j differs by exactly delta, j+1 differs, later equal.  CFB-8: byte j differs by delta, bytes after j+b equal.  PCBC/IGE: blocks <j equal, block j differs, and 'all later blocks differ' is satisfiable (it is not true of every permutation).  CTR/OFB/BelT: keystream independent of data and call schedule.  Causality: inputs equal up to block j (SYMBOLIC j) => outputs equal up to block j, all modes, widths 2 and 3"),
         outside=COMMON_OUTSIDE,
